@@ -218,6 +218,9 @@ impl StateMachine<'_> {
         if !self.test_pending_line_with_diff_name() {
             return Ok(());
         }
+        // The pending header is written directly to the output stream: anything already
+        // rendered (e.g. the last lines of the previous hunk) must be written first.
+        self.painter.emit()?;
 
         if !self.mode_info.is_empty() {
             let format_label = |label: &str| {
